@@ -112,7 +112,8 @@ func c01Check(ctx *core.Ctx, kind, in string, big bool) (res c01Result) {
 	}()
 	ntok := 0
 	lexOK := ctx.Call("Lexer", func() { ntok, _ = mon.CountTokens(in) })
-	hasPct := strings.Contains(in, "%")
+	// a marker in the output can only be blamed on the input if the input itself can spell "%!"
+	hasPct := strings.Contains(in, "%") && strings.Contains(in, "!")
 	for _, df := range []string{"", "df"} {
 		budget := stepBudget(len(in))
 		tickStart(budget)
